@@ -87,6 +87,9 @@ SRC1 = MemoryTextSource("0123456789", source_uri="mem://c16-1")
 SRC2 = MemoryTextSource("abcdefghij", source_uri="mem://c16-2")
 O1 = CodeOrigin(SRC1, get_code_range(0, 1, 0, 3, 1, 3))
 O2 = CodeOrigin(SRC2, get_code_range(2, 1, 2, 5, 1, 5))
+# an equal-but-distinct source object created later (the registry keeps the first one; origins may hold either)
+SRC2B = MemoryTextSource("abcdefghij", source_uri="mem://c16-2")
+O2B = CodeOrigin(SRC2B, get_code_range(2, 1, 2, 5, 1, 5))
 OX = XMLFileOrigin(SRC2, XMLPath("/a/b[1]"))
 OM = merge_origins(O1, O2)
 TAGS = ["k0", "k1", "k2", "k3", "k4"]
@@ -107,7 +110,7 @@ OPTS = {
 def build():
     NODE_REGISTRY.clear()
     leaf = SN("k4", origin=OX)
-    mid = SN("k2", c=leaf, items=(SN("k3", origin=NO_ORIGIN),), origin=O2)
+    mid = SN("k2", c=leaf, items=(SN("k3", origin=NO_ORIGIN),), origin=O2B)
     return SN("k0", c=SN("k1", origin=OM), items=(mid,), origin=O1)
 
 
